@@ -425,9 +425,10 @@ func NewCallTree() *CallTree {
 // add a new call to the current call tree
 func (c *CallTree) add(from common.Address, to *common.Address, data []byte, value, gas *uint256.Int) {
 	newCall := &Call{
-		From:  from,
-		To:    to,
-		Data:  data,
+		From: from,
+		To:   to,
+		// the caller may hand in a slice of live EVM memory: keep a copy
+		Data:  common.CopyBytes(data),
 		Value: value,
 		Gas:   gas,
 
